@@ -494,3 +494,75 @@ func (c *Ctx) OfAt(o *Origins, in ssa.Instruction, v ssa.Value) *Ex {
 	}
 	return o.WithCut(cut.Edges).Of(v)
 }
+
+// CtxsOf is CtxOf for helpers with several call sites: one context per chain of call sites that leads
+// from the operation in scope to the instruction's function (a rule then demands its condition in each).
+func (c *Ctx) CtxsOf(in ssa.Instruction) []*Origins {
+	fn := in.Parent()
+	if fn.Parent() == nil && c.P.IsNewFunc(fn) && c.reqDepth < 4 {
+		sites := c.sitesInScope(c.callersOf(fn))
+		var out []*Origins
+		c.reqDepth++
+		for _, s := range sites {
+			if s.Parent() == fn {
+				continue
+			}
+			for _, oc := range c.CtxsOf(s) {
+				out = append(out, oc.Enter(fn, s))
+			}
+		}
+		c.reqDepth--
+		if len(out) > 0 {
+			return out
+		}
+	}
+	return []*Origins{c.P.OriginsOf(fn)}
+}
+
+// siteArgs gives the arguments (receiver first) of the effect call of a site, once per calling context.
+func (c *Ctx) siteArgs(s EffectSite) [][]*Ex {
+	var out [][]*Ex
+	for _, base := range c.CtxsOf(s.Instr) {
+		os := []*Origins{base}
+		if !s.Direct {
+			os = c.enterChain(base, s.Instr, s.Inner.Parent(), 0)
+			if len(os) == 0 {
+				os = []*Origins{c.P.OriginsOf(s.Inner.Parent())}
+			}
+		}
+		d := c.P.Describe(s.Inner)
+		for _, o := range os {
+			var args []*Ex
+			if d.Recv != nil {
+				args = append(args, o.Of(d.Recv))
+			}
+			for _, a := range d.Args {
+				args = append(args, o.Of(a))
+			}
+			out = append(out, args)
+		}
+	}
+	return out
+}
+
+// enterChain enters the callee of `from` and, through the module helpers it calls (three levels), every
+// chain of calls that ends in target; one entered context of target per chain.
+func (c *Ctx) enterChain(base *Origins, from ssa.CallInstruction, target *ssa.Function, depth int) []*Origins {
+	callee := from.Common().StaticCallee()
+	if callee == nil || callee.Blocks == nil || depth > 3 {
+		return nil
+	}
+	o := base.Enter(callee, from)
+	if callee == target {
+		return []*Origins{o}
+	}
+	var out []*Origins
+	for _, ci := range Calls(callee) {
+		f2 := ci.Common().StaticCallee()
+		if f2 == nil || f2.Pkg == nil || !c.P.InModule(f2.Pkg.Pkg.Path()) || f2 == callee {
+			continue
+		}
+		out = append(out, c.enterChain(o, ci, target, depth+1)...)
+	}
+	return out
+}
